@@ -11,6 +11,7 @@
 #include "env_io.h"
 
 int verif_spawn_allowed;          /* set by the harness when the input legitimately asks for a process */
+int verif_fcloses2;
 int verif_spawns, verif_fopens, verif_fcloses, verif_umask_now = 022, verif_mkstemp_umask = -1, verif_fchmod_mode = -1;
 char verif_mkstemp_template[300];
 
@@ -18,15 +19,17 @@ FILE *
 fopen(const char *path, const char *mode)
 {
     (void) path; (void) mode;
-    verif_fopens++;
-    return VERIF_FP;
+    /* the first file opened reads the payload, a second one (an %included file) the second payload */
+    return (verif_fopens++ == 0) ? VERIF_FP : VERIF_FP2;
 }
 
 int
 fclose(FILE *fp)
 {
-    (void) fp;
     verif_fcloses++;
+    if (fp == VERIF_FP2) {
+        verif_fcloses2++;
+    }
     return 0;
 }
 
